@@ -416,7 +416,8 @@ def _qual(schema, e):
     # when it is called directly without caller options, so below an object property the extra items are not parsed at all
     walk = schema
     try:
-        for p in list(e.absolute_schema_path)[:-1]:
+        # (the last path element included: with `items: false` the violated keyword is `items` itself)
+        for p in list(e.absolute_schema_path):
             if p == "items" and isinstance(walk, dict) and "prefixItems" in walk:
                 return "/keywords-ignored:items-next-to-prefixItems"
             walk = walk[p]
